@@ -22,21 +22,29 @@ func (n *c03ProbeNode) Execute(ctx *pongo2.ExecutionContext, w pongo2.TemplateWr
 
 var c03Tags, c03Filters []string
 
+func c03ProbeTagParser(i int) pongo2.TagParser {
+	return func(doc *pongo2.Parser, start *pongo2.Token, arguments *pongo2.Parser) (pongo2.INodeTag, *pongo2.Error) {
+		atomic.AddInt64(&c03ParseCount[i], 1)
+		return &c03ProbeNode{which: i}, nil
+	}
+}
+
+func c03ProbeFilter(i int) pongo2.FilterFunction {
+	return func(in *pongo2.Value, param *pongo2.Value) (*pongo2.Value, *pongo2.Error) {
+		atomic.AddInt64(&c03FilterCount[i], 1)
+		return pongo2.AsValue("F(" + in.String() + ")"), nil
+	}
+}
+
 func c03Init() {
 	for i, name := range []string{"vprobe_tag_a", "vprobe_tag_b"} {
 		i := i
-		pongo2.RegisterTag(name, func(doc *pongo2.Parser, start *pongo2.Token, arguments *pongo2.Parser) (pongo2.INodeTag, *pongo2.Error) {
-			atomic.AddInt64(&c03ParseCount[i], 1)
-			return &c03ProbeNode{which: i}, nil
-		})
+		pongo2.RegisterTag(name, c03ProbeTagParser(i))
 	}
 	for i, name := range []string{"vprobe_f_a", "vprobe_f_b"} {
 		i := i
 		if !pongo2.FilterExists(name) {
-			pongo2.RegisterFilter(name, func(in *pongo2.Value, param *pongo2.Value) (*pongo2.Value, *pongo2.Error) {
-				atomic.AddInt64(&c03FilterCount[i], 1)
-				return pongo2.AsValue("F(" + in.String() + ")"), nil
-			})
+			pongo2.RegisterFilter(name, c03ProbeFilter(i))
 		}
 	}
 	c03Tags = pongo2.VerifRegisteredTags()
@@ -460,6 +468,23 @@ func c03Histories(c *C) {
 			}
 		default:
 			// a template creation; the first one of a set is always a compilable source that uses nothing bannable
+			if r.Intn(8) == 0 {
+				// the application re-registers its own tag / filter under the same name (same behaviour): a ban is a ban
+				// of the NAME and stays in force for the replacement; the set's frozen state is untouched
+				w := r.Intn(2)
+				e1 := pongo2.ReplaceTag([]string{"vprobe_tag_a", "vprobe_tag_b"}[w], c03ProbeTagParser(w))
+				e2 := pongo2.ReplaceFilter([]string{"vprobe_f_a", "vprobe_f_b"}[w], c03ProbeFilter(w))
+				trace = append(trace, fmt.Sprintf("pongo2.ReplaceTag(vprobe_tag_%c) -> %v, pongo2.ReplaceFilter(vprobe_f_%c) -> %v", 'a'+w, e1, 'a'+w, e2))
+				if e1 != nil || e2 != nil {
+					fail("replace-refused", "replacing a registered tag/filter must succeed")
+					return
+				}
+				c.Cover("history_replace_tag_filter")
+				if perStep && !check() {
+					return
+				}
+				continue
+			}
 			how := r.Intn(12)
 			if !m.frozen && how >= 6 {
 				how = how % 6
